@@ -4,6 +4,7 @@ import (
 	"fmt"
 	"go/token"
 	"go/types"
+	"os"
 	"sort"
 
 	"golang.org/x/tools/go/ssa"
@@ -113,7 +114,7 @@ func fillIfEmptyHelper(h *ssa.Function) (ptrIdx, valIdx int, guarded, ok bool) {
 // localTableRowsOf: v is field #f of the current element of a loop over a local array literal; returns the
 // value that field has in every row (in row order) and the instruction that addresses the element, or ok=false.
 // Unlike localTableColumn it also reads literals whose elements are stored whole (*(&arr[k]) = *complit).
-func localTableRowsOf(v ssa.Value) (rows []ssa.Value, elemAddr *ssa.IndexAddr, root *ssa.Alloc, ok bool) {
+func localTableRowsOf(v ssa.Value) (rows []ssa.Value, elemAddr *tableAccess, root *ssa.Alloc, ok bool) {
 	fieldIdx := -1
 	cur := v
 	for i := 0; i < 12 && root == nil; i++ {
@@ -135,7 +136,13 @@ func localTableRowsOf(v ssa.Value) (rows []ssa.Value, elemAddr *ssa.IndexAddr, r
 			cur = y.X
 		case *ssa.IndexAddr:
 			if elemAddr == nil {
-				elemAddr = y
+				elemAddr = &tableAccess{Index: y.Index, X: y.X, At: y.Block()}
+			}
+			cur = y.X
+		case *ssa.Index:
+			// an element of the array VALUE (for _, e := range [...]T{..} copies the array first)
+			if elemAddr == nil {
+				elemAddr = &tableAccess{Index: y.Index, X: y.X, At: y.Block()}
 			}
 			cur = y.X
 		case *ssa.Slice:
@@ -224,7 +231,19 @@ func localTableRowsOf(v ssa.Value) (rows []ssa.Value, elemAddr *ssa.IndexAddr, r
 }
 
 // localTableLoopIsFull: the element address is taken at an index that runs over every row of the table.
-func localTableLoopIsFull(ia *ssa.IndexAddr, n int64) bool {
+// tableAccess: where and with which index an element of a local table is read.
+type tableAccess struct {
+	Index ssa.Value
+	X     ssa.Value
+	At    *ssa.BasicBlock
+}
+
+func (a *tableAccess) Block() *ssa.BasicBlock { return a.At }
+
+func localTableLoopIsFull(ia *tableAccess, n int64) bool {
+	if os.Getenv("TABDBG") == "fill" {
+		fmt.Fprintf(os.Stderr, "  loopfull: index %s = %s in %s\n", ia.Index.Name(), ia.Index, ia.At)
+	}
 	isLenOfTable := func(v ssa.Value) bool {
 		if k, ok := constInt(v); ok {
 			return k == n
@@ -373,6 +392,79 @@ func (ix *idxEngine) populateFillEvents(fn *ssa.Function, dec *types.Named, refl
 			case *ssa.Store:
 				to := fieldOfAddr(x.Addr)
 				if to == "" {
+					// *row.field = *row.fallback, written out in the loop over a local table of pointer pairs
+					toRows, ia1, root1, ok1 := localTableRowsOf(x.Addr)
+					if !ok1 {
+						continue
+					}
+					if _, isK := constInt(ia1.Index); isK || loopDepth(ia1.At) == 0 {
+						continue // the table literal being built, not the loop that applies it
+					}
+					n := root1.Type().(*types.Pointer).Elem().Underlying().(*types.Array).Len()
+					// guards: the loop's own test, Populate's early returns, and "the target is empty"
+					guarded, foreign := false, false
+					for _, cf := range expandConds(dominatingConds(b)) {
+						if h := innermostLoopHeader(b); h != nil && cf.If.Block() == h {
+							continue
+						}
+						if neutralCond(cf.Cond) {
+							continue
+						}
+						if emptinessTest(cf.Cond, cf.Val, func(v ssa.Value) bool {
+							u, isU := v.(*ssa.UnOp)
+							if !isU || u.Op != token.MUL {
+								return false
+							}
+							r2, ia2, root2, ok2 := localTableRowsOf(u.X)
+							return ok2 && root2 == root1 && ia2.Index == ia1.Index && len(r2) == len(toRows) && sameColumn(r2, toRows)
+						}) {
+							guarded = true
+							continue
+						}
+						foreign = true
+					}
+					if os.Getenv("TABDBG") == "fill" {
+						fmt.Fprintf(os.Stderr, "inline table fill at %s: %s guarded=%v foreign=%v rows=%d\n", ix.c.Pos(x.Pos()), x, guarded, foreign, len(toRows))
+					}
+					if foreign || !localTableLoopIsFull(ia1, n) {
+						return nil, false, fmt.Sprintf("%s: the loop over the table of defaults does not fill every row (or fills under some other condition)", ix.c.Pos(x.Pos()))
+					}
+					var fromRows []ssa.Value
+					if u, isU := x.Val.(*ssa.UnOp); isU && u.Op == token.MUL {
+						if rows2, ia2, root2, ok2 := localTableRowsOf(u.X); ok2 && root2 == root1 && ia2.Index == ia1.Index {
+							fromRows = rows2
+						}
+					}
+					for k, tr := range toRows {
+						toF := fieldOfAddr(tr)
+						if toF == "" {
+							return nil, false, fmt.Sprintf("%s: row %d of the table of defaults does not name a field of the receiver", ix.c.Pos(x.Pos()), k)
+						}
+						from := "?"
+						if fromRows != nil {
+							if f := fieldOfAddr(fromRows[k]); f != "" {
+								from = f
+							} else if al, isAl := fromRows[k].(*ssa.Alloc); isAl {
+								// a local string that is only ever given one non-empty constant
+								nst, okc := 0, true
+								for _, rr := range referrersOf(al) {
+									if st2, isSt := rr.(*ssa.Store); isSt && st2.Addr == ssa.Value(al) {
+										nst++
+										if s0, isS := constString(st2.Val); !isS || s0 == "" {
+											okc = false
+										}
+									}
+								}
+								if nst == 1 && okc {
+									from = ""
+								}
+							}
+						}
+						if from == "?" && guarded {
+							continue
+						}
+						out = append(out, fillEv{toF, from, x.Pos()})
+					}
 					continue
 				}
 				uncond, _ := guardsOf(b, to)
@@ -488,4 +580,17 @@ func (ix *idxEngine) newReflEval(dec *types.Named) *reflEval {
 		}
 	}
 	return re
+}
+
+// sameColumn: two column read-outs of one local table are the same column (row by row the same value).
+func sameColumn(a, b []ssa.Value) bool {
+	if len(a) != len(b) {
+		return false
+	}
+	for i := range a {
+		if a[i] != b[i] {
+			return false
+		}
+	}
+	return true
 }
